@@ -55,6 +55,12 @@ def letters():
         ('RLD', (0xED, 0x6F)),
         ('ADD HL,HL;ADC HL,DE', (0x29, 0xED, 0x5A)),
         ('IM1;IM2', (0xED, 0x56, 0xED, 0x5E)),
+        # paging through aliases of port 0x7FFD (A15 = 0, A1 = 0), then a store to and a load from the paged area
+        ('page via 3FFD', (0x01, 0xFD, 0x3F, 0x3E, 0x13, 0xED, 0x79, 0x32, 0x02, 0xC0, 0x3A, 0x01, 0xC0)),
+        ('page via OUT (FD),A', (0x3E, 0x16, 0xD3, 0xFD, 0x32, 0x03, 0xC0, 0x3A, 0x01, 0xC0)),
+        # AY: select a register number >= 16 (no register), read the data port, write it, select register 3, write, read
+        ('AY select 1F', (0x01, 0xFD, 0xFF, 0x3E, 0x1F, 0xED, 0x79, 0xED, 0x78, 0x06, 0xBF, 0x3E, 0x55, 0xED, 0x79, 0x06, 0xFF, 0xED, 0x50)),
+        ('AY select 3', (0x01, 0xFD, 0xFF, 0x3E, 0x03, 0xED, 0x79, 0x06, 0xBF, 0x3E, 0x5A, 0xED, 0x79, 0x06, 0xFF, 0xED, 0x58)),
     ]
     return L
 
@@ -233,6 +239,11 @@ def configs(d):
         cfg = dict(DEFAULT, python=py, cmio=cmio, isr='short')
         if cfg not in seen:
             seen.append(cfg)
+    # the 128K machine with each other choice (the paging and AY fields exist only there)
+    for k, v in (('fmt', 'z80'), ('python', 1), ('cmio', 1)):
+        cfg = dict(DEFAULT, machine='128K', **{k: v})
+        if cfg not in seen:
+            seen.append(cfg)
     return seen
 
 
@@ -261,6 +272,10 @@ def _shard(shard, nshards, tier, seed):
     # combined with (.z80, --cmio); the final BIT 7,(HL) of the epilogue is covered by the F-bit mask.
     bit_hl = [i for i, (n, _) in enumerate(L) if n == 'BIT 7,(HL)']
     work = [(cfg, seq) for cfg, seq in work if not (cfg['fmt'] == 'z80' and cfg['cmio'] and any(i in bit_hl for i in seq))]
+    # The AY chip belongs to the 128K machine: a 48K snapshot has no field for the selected register or the register
+    # contents (trace.py answers the AY ports on any machine), so the AY letters run on 128K configurations only.
+    ay = [i for i, (n, _) in enumerate(L) if n.startswith('AY ')]
+    work = [(cfg, seq) for cfg, seq in work if not (cfg['machine'] == '48K' and any(i in ay for i in seq))]
     for wi, (cfg, seq) in core.shard_iter(work, shard, nshards):
         n_total = n_for(seq, cfg)
         bad, legs = run_case(cfg, seq, n_total)
